@@ -46,14 +46,40 @@ def captured(f, name):
 
 
 class _Rewrite(ast.NodeTransformer):
-    """old(e) -> __old__[i];  implies(a, b) -> (not a) or b."""
+    """old(e) -> __old__[i];  implies(a, b) -> (not a) or b.
+    old(x.attr) with x bound by an enclosing comprehension -> __oldattr__(x, 'attr') (attribute table
+    snapshotted in the pre-state for every object reachable from the parameters)."""
 
     def __init__(self):
         self.olds = []
+        self.bound = []
+        self.attrs = set()
+
+    def _comp(self, node):
+        names = [n.id for g in node.generators for n in ast.walk(g.target) if isinstance(n, ast.Name)]
+        self.bound.append(names)
+        self.generic_visit(node)
+        self.bound.pop()
+        return node
+
+    visit_GeneratorExp = visit_ListComp = visit_SetComp = visit_DictComp = _comp
 
     def visit_Call(self, node):
         if isinstance(node.func, ast.Name) and node.func.id == 'old':
-            self.olds.append(ast.Expression(body=node.args[0]))
+            arg = node.args[0]
+            free = {n.id for n in ast.walk(arg) if isinstance(n, ast.Name)} & {x for b in self.bound for x in b}
+            if free:
+                if isinstance(arg, ast.Attribute) and isinstance(arg.value, ast.Name):
+                    self.attrs.add(arg.attr)
+                    return ast.Call(func=ast.Name('__oldattr__', ast.Load()),
+                                    args=[arg.value, ast.Constant(arg.attr)], keywords=[])
+                if isinstance(arg, ast.Attribute) and isinstance(arg.value, ast.Call):
+                    # old(f(...).attr): the object is state-independent, only the attribute is old
+                    self.attrs.add(arg.attr)
+                    return ast.Call(func=ast.Name('__oldattr__', ast.Load()),
+                                    args=[self.visit(arg.value), ast.Constant(arg.attr)], keywords=[])
+                raise SyntaxError('old() over comprehension variables supports only old(x.attr)')
+            self.olds.append(ast.Expression(body=arg))
             return ast.Subscript(value=ast.Name('__old__', ast.Load()),
                                  slice=ast.Constant(len(self.olds) - 1), ctx=ast.Load())
         self.generic_visit(node)
@@ -63,6 +89,26 @@ class _Rewrite(ast.NodeTransformer):
         return node
 
 
+def reachable_objects(params, depth=3):
+    seen, out, stack = set(), [], [(v, 0) for v in params.values()]
+    while stack:
+        v, d = stack.pop()
+        if id(v) in seen or d > depth:
+            continue
+        seen.add(id(v))
+        if isinstance(v, dict):
+            stack += [(x, d + 1) for x in list(v.keys()) + list(v.values())]
+        elif isinstance(v, (list, tuple, set, frozenset)):
+            stack += [(x, d + 1) for x in v]
+        elif hasattr(v, '__dict__') and not isinstance(v, type) and not callable(v):
+            out.append(v)
+            try:
+                stack += [(x, d + 1) for x in vars(v).values()]
+            except TypeError:
+                pass
+    return out
+
+
 class Clause:
     def __init__(self, label, text):
         self.label, self.text = label, text
@@ -70,6 +116,7 @@ class Clause:
         tree = rw.visit(ast.parse(text.strip(), mode='eval'))
         ast.fix_missing_locations(tree)
         self.code = compile(tree, f'<contract:{label}>', 'eval')
+        self.old_attrs = rw.attrs
         self.olds = []
         for o in rw.olds:
             ast.fix_missing_locations(o)
@@ -77,6 +124,14 @@ class Clause:
 
     def pre(self, env):
         vals = []
+        self._attr_table = {}
+        if self.old_attrs:
+            for o in reachable_objects({k: v for k, v in env.items() if not callable(v)}):
+                for a in self.old_attrs:
+                    try:
+                        self._attr_table[(id(o), a)] = getattr(o, a)
+                    except Exception:
+                        pass
         for c in self.olds:
             v = eval(c, env)
             try:
@@ -91,6 +146,8 @@ class Clause:
     def post(self, env, olds):
         e = dict(env)
         e['__old__'] = olds
+        table = getattr(self, '_attr_table', {})
+        e['__oldattr__'] = lambda o, a: table[(id(o), a)]
         return eval(self.code, e)
 
 
